@@ -235,11 +235,16 @@ pub fn run(p: &Params) -> Report {
     let mut rep = Report::new("C12");
     rep.rule = "cases = (a) every byte string of length 0-3, enumerated; (b) every opcode byte with every operand-length class, every truncation point and trailing bytes; (c) random/mutated longer strings built from valid encodings; (d) random instruction lists. For each: decodability and decoded program agree with the reference decoder, decode-encode and encode-decode round trips are identities, weight/hash from bytes = from instructions = reference. Non-trivial = decodable string or representable program; distinct by content".into();
     // (a) exhaustive up to 3 bytes, split over shards by first byte (length-3 strings dominate)
-    let exhaustive3 = true;
+    // under Miri (thorough tier's interpreter stage) only the strings of length <= 1 and a token share of the rest
+    let miri = cfg!(miri);
+    let exhaustive3 = !miri;
     if p.shard == 0 {
         check_bytes(&mut rep, &[], "len0", true);
         for a in 0..=255u8 {
             check_bytes(&mut rep, &[a], "len1", true);
+            if miri {
+                continue;
+            }
             for b in 0..=255u8 {
                 check_bytes(&mut rep, &[a, b], "len2", true);
             }
@@ -261,7 +266,7 @@ pub fn run(p: &Params) -> Report {
     }
     let mut r = Rng::new(p.shard_seed() ^ 0xC12);
     // (b) operand classes / truncation / trailing
-    if p.shard == 0 {
+    if p.shard == 0 && !miri {
         for opc in 0..=255u8 {
             for arglen in [0usize, 1, 2, 3, 4, 5, 31, 32, 33, 34, 64, 255, 256, 257] {
                 for first in [0u8, 1, 0x20, 33, 0xff] {
@@ -302,7 +307,7 @@ pub fn run(p: &Params) -> Report {
         }
     }
     // (c) random / mutated longer strings
-    let n_c = p.share(p.n(1_000_000, 30_000_000));
+    let n_c = if miri { 40 } else { p.share(p.n(1_000_000, 30_000_000)) };
     for _ in 0..n_c {
         let n_ops = 1 + r.usize(12);
         let ops: Vec<Op> = (0..n_ops).map(|_| random_op(&mut r, false)).collect();
@@ -333,7 +338,7 @@ pub fn run(p: &Params) -> Report {
         check_bytes(&mut rep, &b, "random-mutated", true);
     }
     // (d) random instruction lists
-    let n_d = p.share(p.n(300_000, 8_000_000));
+    let n_d = if miri { 40 } else { p.share(p.n(300_000, 8_000_000)) };
     for k in 0..n_d {
         let n_ops = r.usize(14);
         let ops: Vec<Op> = (0..n_ops).map(|_| random_op(&mut r, true)).collect();
@@ -343,7 +348,7 @@ pub fn run(p: &Params) -> Report {
         }
     }
     // (e) loop-heavy programs: weight from bytes / from instructions / reference on nested, clipped and overrunning bodies
-    let n_e = p.share(p.n(400_000, 10_000_000));
+    let n_e = if miri { 20 } else { p.share(p.n(400_000, 10_000_000)) };
     for _ in 0..n_e {
         let n_ops = 1 + r.usize(28);
         let ops: Vec<Op> = (0..n_ops)
@@ -382,9 +387,9 @@ pub fn run(p: &Params) -> Report {
     }
     // (f) long programs: instruction counts around every width a counter or an operand could have (2^8, 2^16, 2^17) and
     // beyond - "consumes the whole input" and both round trips must hold however long the program is
-    let n_f = p.n(3, 40) as usize;
+    let n_f = if miri { 0 } else { p.n(3, 40) as usize };
     let mut lens: Vec<usize> = vec![];
-    if p.shard == 0 {
+    if p.shard == 0 && !miri {
         lens.extend([254usize, 255, 256, 257, 65534, 65535, 65536, 65537, 65538, 131071, 131072, 131073]);
     }
     for _ in 0..n_f {
@@ -430,6 +435,8 @@ pub fn run(p: &Params) -> Report {
         rep.sample(json!({"bytes": "f20100", "class": "non-canonical PushIC (leading zero)", "decodes": Covenant::from_bytes(&[0xf2, 1, 0]).is_ok()}));
     }
     rep.require("decodable", 1000);
-    rep.require("long programs beyond 65536 instructions", 1);
+    if !miri {
+        rep.require("long programs beyond 65536 instructions", 1);
+    }
     rep
 }
